@@ -102,6 +102,16 @@ def remove_meta(value):
     return value
 
 
+def has_config(value):
+    """Returns True if a configuration lies in the value (directly, or in a
+    list / dict at any depth)"""
+    if isinstance(value, list):
+        return any(has_config(el) for el in value)
+    if isinstance(value, dict):
+        return any(has_config(el) for el in value.values())
+    return isinstance(value, Config)
+
+
 class ConfigPath:
     """Used to keep track of cycles when computing a hash"""
 
@@ -188,6 +198,26 @@ class HashComputer:
                 "updating hash (%s): %s", hash(str(self.config)), str(bytes)
             )
         self._hasher.update(bytes)
+
+    def is_default(self, argument, argvalue) -> bool:
+        """Returns True if the value of the argument is its default value"""
+        default = argument.default
+        if default is None:
+            return False
+
+        if not has_config(default):
+            return default == remove_meta(argvalue)
+
+        # The default holds configurations: `==` between configurations
+        # compares every parameter (ignored and generated ones included) and
+        # does not look at the task that produced them; a value is the default
+        # when both are hashed alike
+        def signature(value):
+            computer = HashComputer(None, ConfigPath(), version=self.version)
+            computer.update(value)
+            return computer._hasher.digest()
+
+        return signature(default) == signature(argvalue)
 
     def update(self, value, *, myself=False):  # noqa: C901
         """Update the hash
@@ -290,10 +320,7 @@ class HashComputer:
                         and argument.default is None
                         and argvalue is None
                     )
-                    or (
-                        argument.default is not None
-                        and argument.default == remove_meta(argvalue)
-                    )
+                    or self.is_default(argument, argvalue)
                 ):
                     # No update if same value (and not constant)
                     continue
